@@ -107,6 +107,29 @@ def response(p: dict, inhib: bool, normalized: bool) -> tuple[dict, dict]:
     return ({q: {v: rv[q][v] * ss[v] / p[q] for v in ss} for q in rv}, {q: {r: rf[q][r] * f[r] / p[q] for r in f} for q in rf})
 
 
+def gen_moiety(rng) -> dict:  # noqa: ANN001
+    """Closed A <-> B: the steady state depends on where the simulation starts (conserved total)."""
+    p = {"k1": round(rng.uniform(0.5, 2.0), 3), "k2": round(rng.uniform(0.5, 2.0), 3)}
+    y0 = {"A": round(rng.uniform(0.5, 2.0), 3), "B": round(rng.uniform(0.5, 2.0), 3)}
+    comps = [{"kind": "parameter", "name": k, "value": v} for k, v in p.items()]
+    comps += [{"kind": "variable", "name": v, "value": y0[v]} for v in ("A", "B")]
+    comps.append({"kind": "reaction", "name": "v1", "fn": fl.ref(fl.ma1), "args": ["k1", "A"], "stoich": {"A": -1, "B": 1}})
+    comps.append({"kind": "reaction", "name": "v2", "fn": fl.ref(fl.ma1), "args": ["k2", "B"], "stoich": {"B": -1, "A": 1}})
+    return {"spec": {"components": comps}, "params": p, "y0": y0}
+
+
+def response_moiety(p: dict, total: float, normalized: bool) -> tuple[dict, dict]:
+    k1, k2 = p["k1"], p["k2"]
+    s = k1 + k2
+    rv = {"k1": {"A": -k1 / s, "B": k2 / s}, "k2": {"A": k1 / s, "B": -k2 / s}}
+    rf = {"k1": {"v1": k2 / s, "v2": k2 / s}, "k2": {"v1": k1 / s, "v2": k1 / s}}
+    if normalized:
+        return rv, rf
+    ss = {"A": k2 * total / s, "B": k1 * total / s}
+    v = k1 * ss["A"]
+    return ({q: {x: rv[q][x] * ss[x] / p[q] for x in ss} for q in rv}, {q: {r: rf[q][r] * v / p[q] for r in ("v1", "v2")} for q in rf})
+
+
 def cmp_table(df: pd.DataFrame, exp: dict, tol: float, what: str, ctx: dict) -> list[dict]:
     out = []
     for col, rows in exp.items():
@@ -130,9 +153,10 @@ def run_case(case: dict) -> dict:
     from mxlpy import mc, mca
 
     rng = core.rng_for(case["seed"])
-    net = gen_net(rng)
+    moiety = case["part"] == "response" and rng.random() < 0.4
+    net = gen_moiety(rng) if moiety else gen_net(rng)
     model = rm.build(net["spec"])
-    p, inhib = net["params"], net["inhib"]
+    p, inhib = net["params"], net.get("inhib", False)
     viols: list[dict] = []
     counters: dict[str, int] = {f"part:{case['part']}": 1}
     ctx = {"params": p, "y0": net["y0"], "inhibition": inhib}
@@ -171,10 +195,16 @@ def run_case(case: dict) -> dict:
         normalized = rng.random() < 0.6
         given = rng.random() < 0.5
         st = {"x": round(rng.uniform(0.5, 2.5), 3), "y": round(rng.uniform(0.5, 2.5), 3)} if given else None
-        rv, rf = response(p, inhib, normalized)
+        if moiety:
+            # the start state carries a different conserved total than the model's initial values
+            st = {"A": round(rng.uniform(0.5, 3.0), 3), "B": round(rng.uniform(0.5, 3.0), 3)} if given else None
+            rv, rf = response_moiety(p, sum((st or net["y0"]).values()), normalized)
+            counters["response:conserved_moiety" + ("(start state given)" if given else "")] = 1
+        else:
+            rv, rf = response(p, inhib, normalized)
         results = {}
         for mode, kw in (("sequential", {"parallel": False}), ("parallel", {"parallel": True, "max_workers": rng.choice([1, 2, 16])})):
-            rc = mca.response_coefficients(model, to_scan=["kin", "k1", "k2"], variables=st, normalized=normalized, disable_tqdm=True, **kw)
+            rc = mca.response_coefficients(model, to_scan=["k1", "k2"] if moiety else ["kin", "k1", "k2"], variables=st, normalized=normalized, disable_tqdm=True, **kw)
             untouched(f"response_coefficients({mode}, variables {'given' if given else 'default'})")
             results[mode] = rc
             viols += cmp_table(rc.variables, rv, 2e-2, "concentration response coefficient differs from the analytic steady-state sensitivity", {"normalized": normalized, "mode": mode, **ctx})
@@ -202,7 +232,7 @@ def run_case(case: dict) -> dict:
             rv, rf = response(pp, inhib, normalized)
             viols += cmp_table(rc.variables.loc[i].T, {q: rv[q] for q in ("kin", "k1")}, 2e-2, "mc response coefficient differs for a draw", {"draw": row.to_dict(), "normalized": normalized, **ctx})
         counters["mc_draws"] = 3
-    nt = inhib or p["a"] != 1.0 or p["b"] != 1.0
+    nt = moiety or inhib or p["a"] != 1.0 or p["b"] != 1.0
     return core.result(sig=core.sha([net["spec"], case["part"]]), nontrivial=nt, violations=viols[:4], counters=counters,
                        sample={"part": case["part"], **ctx} if case.get("idx", 0) < 3 else None)
 
